@@ -123,6 +123,7 @@ type Exec struct {
 	profile   map[*ssa.Function]int
 	stack     []*ssa.Function
 	opaque    map[*Term]bool
+	locks     map[any]int // exclusive locks currently held (per mutex object)
 	pendingModelT, pendingModelF *Env
 	entangled map[*Term]bool
 	intShadow map[*Term]*Term
